@@ -75,7 +75,7 @@ func Run(p *Program, fn *ssa.Function, prop string, cfg RunConfig) *Explorer {
 
 func runPath(p *Program, fn *ssa.Function, prop string, ex *Explorer, sv *solver.Proc, item WorkItem, cfg RunConfig) {
 	sv.Reset()
-	path := &Path{Ex: ex, Ctx: sym.NewCtx(), prefix: item.Prefix, sv: sv, pr: sym.NewPrinter(),
+	path := &Path{Ex: ex, Ctx: sym.NewCtx(), prefix: item.Prefix, auxPrefix: item.Aux, sv: sv, pr: sym.NewPrinter(),
 		QTimeout: time.Duration(cfg.PortfolioS) * time.Second}
 	path.No = atomic.AddInt64(&ex.Paths, 1)
 	if item.Model == nil {
@@ -125,7 +125,7 @@ func runPath(p *Program, fn *ssa.Function, prop string, ex *Explorer, sv *solver
 			path.emitVector(path.model, "violation", id, true)
 		case *Unsupported:
 			ex.resMu.Lock()
-			ex.Unsupported[r.Msg]++
+			ex.Unsupported[r.Msg+" at "+in.Where()]++
 			ex.resMu.Unlock()
 			if cfg.Verbose {
 				fmt.Fprintf(os.Stderr, "path %d: unsupported: %s\n", path.No, r.Msg)
@@ -136,7 +136,7 @@ func runPath(p *Program, fn *ssa.Function, prop string, ex *Explorer, sv *solver
 			ex.resMu.Unlock()
 		default:
 			ex.resMu.Lock()
-			ex.Unsupported[fmt.Sprintf("engine error: %v", r)]++
+			ex.Unsupported[fmt.Sprintf("engine error: %v at %s", r, in.Where())]++
 			ex.resMu.Unlock()
 			if cfg.Verbose {
 				fmt.Fprintf(os.Stderr, "path %d: engine error: %v\n%s\n", path.No, r, debug.Stack())
